@@ -7,22 +7,51 @@
    ANY reachable state answer the values recomputed from scratch.  The cache is part of the
    state: all reachable (tree, partially filled cache) combinations are explored. *)
 EXTENDS RankTree
-CONSTANT GRAPHS
-VARIABLES gr, nodes, ranks, panic
-vars == <<gr, nodes, ranks, panic>>
+CONSTANTS GRAPHS,      \* the graphs (one initial state each)
+          NORMALIZE    \* FALSE: the exact machine, neighbour lists in the code's order.
+                       \* TRUE: order-insensitive abstraction for larger graphs: neighbour lists are kept
+                       \* sorted and random_local_swap may take EITHER neighbour of b other than c as d
+                       \* (the code takes the first in list order; nothing else in the moves depends on
+                       \* the order on a valid tree).  Every run of the exact machine maps, by sorting, to
+                       \* a run of this one, and all invariants are insensitive to the order.
+VARIABLES gr, nodes, ranks, panic,      \* the tree machine
+          mode, adaptive, initw, an     \* the annealer machine (mode = "anneal"), idle otherwise
+vars == <<gr, nodes, ranks, panic, mode, adaptive, initw, an>>
+idle == <<mode, adaptive, initw, an>>
+Norm(ns) == IF NORMALIZE THEN SortNhds(ns) ELSE ns
+DSel == IF NORMALIZE THEN {1, 2} ELSE {1}
 
-Init == gr \in GRAPHS /\ nodes = Caterpillar(gr.n) /\ ranks = <<>> /\ panic = FALSE
-Apply(r) == nodes' = r.nodes /\ ranks' = r.ranks /\ panic' = r.panic /\ UNCHANGED gr
-ASwapLeaves == ~panic /\ \E a \in SwapLeavesArgs(nodes) : Apply(SwapLeaves(nodes, ranks, a[1], a[2]))
-ALocalSwap == ~panic /\ \E a \in LocalSwapArgs(nodes) : Apply(LocalSwap(nodes, ranks, a[1], a[2], a[3]))
-AMoveSubtree == ~panic /\ \E a \in MoveSubtreeArgs(nodes) : Apply(MoveSubtree(nodes, ranks, a[1], a[2]))
-AComputeRanks == ~panic /\ ranks' = ComputeRanks(gr, nodes, ranks) /\ UNCHANGED <<gr, nodes, panic>>
+Init == /\ gr \in GRAPHS /\ nodes = Norm(Caterpillar(gr.n)) /\ ranks = <<>> /\ panic = FALSE
+        /\ mode = "moves" /\ adaptive = FALSE /\ initw = 0 /\ an = <<>>
+Apply(r) == nodes' = Norm(r.nodes) /\ ranks' = r.ranks /\ panic' = r.panic /\ UNCHANGED <<gr, idle>>
+ASwapLeaves == mode = "moves" /\ ~panic /\ \E a \in SwapLeavesArgs(nodes) : Apply(SwapLeaves(nodes, ranks, a[1], a[2]))
+ALocalSwap == mode = "moves" /\ ~panic /\ \E a \in LocalSwapArgs(nodes) : \E dk \in DSel :
+                 Apply(LocalSwapD(nodes, ranks, a[1], a[2], a[3], dk))
+AMoveSubtree == mode = "moves" /\ ~panic /\ \E a \in MoveSubtreeArgs(nodes) : Apply(MoveSubtree(nodes, ranks, a[1], a[2]))
+AComputeRanks == mode = "moves" /\ ~panic /\ ranks' = ComputeRanks(gr, nodes, ranks) /\ UNCHANGED <<gr, nodes, panic, idle>>
 Next == ASwapLeaves \/ ALocalSwap \/ AMoveSubtree \/ AComputeRanks
 
 InvNoPanic == ~panic
 InvValidTree == panic \/ ValidTree(gr, nodes)
 InvCacheCoherent == panic \/ CacheCoherent(gr, nodes, ranks)
 InvWidthOK == panic \/ WidthOK(gr, nodes, ranks)
+
+\* ---- the annealer machine: run() started on the initial tree or (ANNEAL_FROM_ANY) on any state of
+\* the tree machine (any tree, any partially filled cache: new_with_decomp takes the caller's tree
+\* as it is); every iteration draws a move, every choice of its arguments, and the acceptance
+\* coin.  nodes/ranks follow old_decomp.
+ADAPTIVE == {TRUE, FALSE}
+AStartAnneal == /\ mode = "moves" /\ ~panic
+                /\ mode' = "anneal" /\ adaptive' \in ADAPTIVE /\ initw' = TrueWidth(gr, nodes)
+                /\ an' = AnnealStart(gr, nodes, ranks)
+                /\ ranks' = an'.old.ranks /\ UNCHANGED <<gr, nodes, panic>>
+AAnnealStep == /\ mode = "anneal" /\ ~panic
+               /\ \E kind \in AnnealKinds : \E r \in MoveResultsD(kind, nodes, ranks, DSel) : \E coin \in BOOLEAN :
+                    /\ an' = AnnealStep(gr, an, adaptive, [r EXCEPT !.nodes = Norm(@)], coin)
+                    /\ nodes' = an'.old.nodes /\ ranks' = an'.old.ranks /\ panic' = an'.panic
+               /\ UNCHANGED <<gr, mode, adaptive, initw>>
+NextA == Next \/ AStartAnneal \/ AAnnealStep
+InvAnnealerOK == (mode = "anneal" /\ ~panic) => AnnealerOK(gr, initw, an)
 
 \* ---- graphs (cfg files cannot contain tuples: GRAPHS <- one of the sets below)
 G(n, adj) == [n |-> n, adj |-> adj]
@@ -36,11 +65,20 @@ E4 == G(4, {})
 C5 == G(5, {<<1, 2>>, <<2, 3>>, <<3, 4>>, <<4, 5>>, <<5, 1>>})
 P5 == G(5, {<<1, 2>>, <<2, 3>>, <<3, 4>>, <<4, 5>>})
 K4P == G(5, {<<1, 2>>, <<1, 3>>, <<1, 4>>, <<2, 3>>, <<2, 4>>, <<3, 4>>, <<4, 5>>})   \* K4 plus a pendant vertex
+C6 == G(6, {<<1, 2>>, <<2, 3>>, <<3, 4>>, <<4, 5>>, <<5, 6>>, <<6, 1>>})
+R6 == G(6, {<<1, 2>>, <<2, 3>>, <<3, 4>>, <<4, 5>>, <<5, 6>>, <<1, 3>>, <<2, 5>>})   \* no non-trivial symmetry
 GraphsQ == {E3, P3, P4, C4, Star4, E4}
-GraphsT == {C5, K4P}
+Graphs6 == {R6}
+GraphsT == {C5, K4P, P5}
 GraphsC5 == {C5}
 GraphsK4P == {K4P}
 GraphsP5 == {P5}
 \* two vertices: swap_random_leaves panics (InvNoPanic is violated); kept out of the plans, see plan_C18.py
 GraphsK2 == {K2}
+\* annealer machine: graphs with at least one edge (on edgeless graphs adaptive cooling panics with
+\* NaN: GraphsNaN is the config that shows it, kept out of the plans)
+GraphsA == {P3, P4, C4, Star4}
+GraphsAX == {P3, C4}
+GraphsNaN == {E3}
+GraphsA5 == {P3, P4, C4, Star4, C5, K4P}
 =============================================================================
